@@ -16,7 +16,11 @@ import (
 	"io"
 	"net"
 	"net/http"
+	"os"
+	"path/filepath"
+	"regexp"
 	"sort"
+	"strconv"
 	"strings"
 	"sync"
 	"time"
@@ -274,14 +278,14 @@ func (b *sshBackend) serve() {
 // ---- scenarios ----------------------------------------------------------------------------------
 
 type scenario struct {
-	Kind    string `json:"kind"` // http | copy-tcp | copy-udp | dns | ssh
-	Sub     int    `json:"sub"`
-	Mode    string `json:"mode,omitempty"` // lockstep | pipelined | overlap
-	Cut     int    `json:"cut,omitempty"`  // -1 none
+	Kind string `json:"kind"` // http | copy-tcp | copy-udp | dns | ssh
+	Sub  int    `json:"sub"`
+	Mode string `json:"mode,omitempty"` // lockstep | pipelined | overlap
+	Cut  int    `json:"cut,omitempty"`  // -1 none
 	// overlap: the first write carries requests 0..After complete plus the first Cut bytes of the next one; the
 	// client reads the replies to the complete requests before it sends the rest
-	After int `json:"after,omitempty"`
-	Clients int    `json:"clients"`
+	After   int `json:"after,omitempty"`
+	Clients int `json:"clients"`
 }
 
 type hreq struct {
@@ -885,7 +889,66 @@ func clipS(a []string) []string {
 }
 
 type params struct {
-	Off int `json:"off"`
+	Off   int  `json:"off"`
+	Trace bool `json:"trace,omitempty"` // the child runs under strace -e trace=connect
+}
+
+var reConnect = regexp.MustCompile(`connect\(\d+, \{sa_family=AF_INET6?, sin6?_port=htons\((\d+)\), [^}]*?(?:inet_addr\("([^"]*)"\)|inet_pton\(AF_INET6, "([^"]*)")`)
+
+// judgeConnects is the syscall-level monitor of "the proxy opens connections to no address other than the
+// configured backend": every connect() of the process to an internet address must name one of the backends.
+func judgeConnects(recs []core.Rec, exits []core.Exit) []core.Result {
+	var ports map[string]int
+	for _, r := range recs {
+		if r.T == "backends" {
+			r.XInto(&ports)
+		}
+	}
+	if ports == nil {
+		return nil
+	}
+	allowed := map[int]string{}
+	for name, p := range ports {
+		if name != "decoy" {
+			allowed[p] = name
+		}
+	}
+	total := 0
+	per := map[string]int{}
+	var bad []string
+	for _, e := range exits {
+		f, err := os.Open(filepath.Join(e.WorkDir, "strace.log"))
+		if err != nil {
+			return []core.Result{{K: 0, Verdict: core.Inconclusive, What: "no system call trace: " + err.Error()}}
+		}
+		sc := bufio.NewScanner(f)
+		sc.Buffer(make([]byte, 1<<20), 4<<20)
+		for sc.Scan() {
+			m := reConnect.FindStringSubmatch(sc.Text())
+			if m == nil {
+				continue
+			}
+			port, _ := strconv.Atoi(m[1])
+			addr := m[2] + m[3]
+			total++
+			if name, ok := allowed[port]; ok && (addr == "127.0.0.1" || addr == "::1" || addr == "::ffff:127.0.0.1") {
+				per[name]++
+				continue
+			}
+			bad = append(bad, fmt.Sprintf("%s port %d", addr, port))
+		}
+		f.Close()
+	}
+	res := core.Result{K: 0, Verdict: core.Held, Key: fmt.Sprintf("connects|%d", total),
+		Sample: map[string]interface{}{"mode": "system call trace of connect()", "connects_to_internet_addresses": total, "per_backend": per, "backends": ports}}
+	if total == 0 {
+		res.Verdict, res.Key, res.What = core.Inconclusive, "", "the trace shows no connect() to an internet address"
+	}
+	out := []core.Result{res}
+	if len(bad) > 0 {
+		out = append(out, core.Result{K: 0, Verdict: core.Violated, Sig: "C15|connect-to-unnamed-address", What: fmt.Sprintf("the process connected to %s, which no director names (backends: %v; %d such connects)", bad[0], ports, len(bad)), Witness: bad})
+	}
+	return out
 }
 
 func (prop) Plan(tier string, seed int64) []core.Batch {
@@ -907,6 +970,23 @@ func (prop) Plan(tier string, seed int64) []core.Batch {
 		p, _ := json.Marshal(params{Off: c * per})
 		plan = append(plan, core.Batch{Name: fmt.Sprintf("part/%d", c), N: n, Params: p, Timeout: 1800})
 	}
+	// the first scenarios of every part once more with every connect() of the process recorded (strace): the
+	// proxies may open connections to the configured backends only
+	tn := 40
+	if tier == "thorough" {
+		tn = 150
+	}
+	for c := 0; c < chunks; c++ {
+		n := tn
+		if c*per+n > len(all) {
+			n = len(all) - c*per
+		}
+		if n <= 0 {
+			break
+		}
+		p, _ := json.Marshal(params{Off: c * per, Trace: true})
+		plan = append(plan, core.Batch{Name: fmt.Sprintf("traced/%d", c), N: n, Params: p, Timeout: 1800, Strace: "--seccomp-bpf -e trace=connect"})
+	}
 	return plan
 }
 
@@ -923,6 +1003,16 @@ func (prop) Child(b core.Batch, o *core.Obs) {
 	if to == 0 {
 		to = b.N
 	}
+	portOf := func(a net.Addr) int {
+		switch x := a.(type) {
+		case *net.TCPAddr:
+			return x.Port
+		case *net.UDPAddr:
+			return x.Port
+		}
+		return 0
+	}
+	o.EmitX("backends", map[string]int{"http": portOf(e.hb.l.Addr()), "tcp": portOf(e.tb.l.Addr()), "udp": portOf(e.ub.c.LocalAddr()), "dns": portOf(e.db.c.LocalAddr()), "ssh": portOf(e.sb.l.Addr()), "decoy": portOf(e.decoy.l.Addr())})
 	for k := b.From; k < to; k++ {
 		sc := all[p.Off+k]
 		o.Begin(k)
@@ -987,6 +1077,9 @@ func (prop) Judge(b core.Batch, recs []core.Rec, exits []core.Exit) []core.Resul
 		if e.Died() {
 			out = append(out, core.Result{K: e.LastBegun, Verdict: core.Inconclusive, What: fmt.Sprintf("child died (%s %s)", e.Class, e.Frame)})
 		}
+	}
+	if p.Trace {
+		out = append(out, judgeConnects(recs, exits)...)
 	}
 	return out
 }
